@@ -111,7 +111,7 @@ static inline bool request(int layer, size_t n, const char* caller, bool eligibl
   if (!fired && fail_at > 0 && req_no == fail_at) {
     fired = true; fired_layer = layer; fired_size = n; fired_caller = caller;
     log_ev('X', layer, n);
-    if (recording) bt_throw_len = backtrace(bt_throw, BT_DEPTH);
+    bt_throw_len = backtrace(bt_throw, BT_DEPTH);
     return true;
   }
   return false;
